@@ -88,8 +88,10 @@ Print Assumptions C07_esd_suffix.
 
 (* ---- column order -------------------------------------------------------------------------------------------------- *)
 (* Over the reals, for a lattice with cartesian(fractional c) = c and positive tolerance.
-   site_ok  r : the targets of the row's translators are pairwise distinct (ignored columns apart), no anisotropic
-                component column, not both fractional and Cartesian columns, type symbols give a non-empty element;
+   site_ok_so so r : the targets of the row's translators are pairwise distinct (ignored columns apart), no anisotropic
+                component column, type symbols give a non-empty element, and - unless so = SOTypeFirstCartnLast, i.e. unless the
+                Cartesian translators are applied last - not both fractional and Cartesian columns;
+                the_setter_order is read off _parse_atom_site_label by the translator;
    aniso_ok r : the same but instead of "no component column": no isotropic-value and no adp-type column;
    always_cond: every row of the aniso loop meets an atom whose anisotropy flag is on once settled (it is, unless the
                 site loop declared that atom Uiso).
@@ -98,7 +100,7 @@ Theorem C07_column_order : forall (eps : R) (lat : latdata R) (recbase : gmat R)
   (0 < l_epsilon lat)%R ->
   (forall c, cartesian (Env (RC eps) lat recbase Dz grid dcv) (fractional (Env (RC eps) lat recbase Dz grid dcv) c) = c) ->
   forall find Tb cell n cols cols' m acols acols' b,
-  Permutation cols cols' -> NoDup (map (tc_name (T:=R)) cols) -> (forall i, (i < n)%nat -> site_ok (row_of cols i)) ->
+  Permutation cols cols' -> NoDup (map (tc_name (T:=R)) cols) -> (forall i, (i < n)%nat -> site_ok_so the_setter_order (row_of cols i)) ->
   Permutation acols acols' -> NoDup (map (tc_name (T:=R)) acols) -> (forall i, (i < m)%nat -> aniso_ok (row_of acols i)) ->
   (forall st0 lc, read_site_loop (Env (RC eps) lat recbase Dz grid dcv) (TLoop n cols) = Ok st0 ->
                   label_col "_atom_site_aniso_label" acols = Some lc -> always_cond eps lat recbase Dz grid dcv m acols lc st0) ->
@@ -111,25 +113,28 @@ Print Assumptions C07_column_order.
 Theorem C07_site_row_order : forall (eps : R) (lat : latdata R) (recbase : gmat R) (Dz : Z) (grid : R -> Z) (dcv : dec -> R),
   (0 < l_epsilon lat)%R ->
   (forall c, cartesian (Env (RC eps) lat recbase Dz grid dcv) (fractional (Env (RC eps) lat recbase Dz grid dcv) c) = c) ->
-  forall r r', Permutation r r' -> site_ok r ->
-  run_row (Env (RC eps) lat recbase Dz grid dcv) (init_atom (Env (RC eps) lat recbase Dz grid dcv)) r' =
-  run_row (Env (RC eps) lat recbase Dz grid dcv) (init_atom (Env (RC eps) lat recbase Dz grid dcv)) r.
-Proof. exact site_row_order. Qed.
+  forall so r r', Permutation r r' -> site_ok_so so r ->
+  run_row (Env (RC eps) lat recbase Dz grid dcv) (init_atom (Env (RC eps) lat recbase Dz grid dcv)) (order_row so r') =
+  run_row (Env (RC eps) lat recbase Dz grid dcv) (init_atom (Env (RC eps) lat recbase Dz grid dcv)) (order_row so r).
+Proof. exact site_row_order_so. Qed.
 Theorem C07_aniso_row_order : forall (eps : R) (lat : latdata R) (recbase : gmat R) (Dz : Z) (grid : R -> Z) (dcv : dec -> R),
   (forall c, cartesian (Env (RC eps) lat recbase Dz grid dcv) (fractional (Env (RC eps) lat recbase Dz grid dcv) c) = c) ->
   forall a r r', Permutation r r' -> aniso_ok r -> st_aniso (a_adp a) = true ->
   run_row (Env (RC eps) lat recbase Dz grid dcv) a r' = run_row (Env (RC eps) lat recbase Dz grid dcv) a r.
 Proof. exact aniso_row_order. Qed.
 
-(* outside these conditions the order of the columns DOES matter (exact-rational runs of the model; the finder replays
-   the same CIFs on the code):  (a) one merged loop with the adp type after the anisotropic components loses the tensor;
-   (b) fractional and Cartesian coordinates of the same point interleaved in an oblique cell move the atom;
-   (c) an atom declared Uiso but listed in the aniso loop keeps the last diagonal component *)
-Theorem C07_column_order_refuted_outside_conditions :
-  (Permutation merged_type_first merged_type_last /\ Urow E_cube merged_type_first <> Urow E_cube merged_type_last) /\
-  (qlist_eqb (Xrow E_obl both_blocked) [1 # 10; 1 # 5; 3 # 10]%Q = true /\
-   qlist_eqb (Xrow E_obl both_interleaved) [1 # 10; 1 # 5; 3 # 10]%Q = false).
-Proof. exact (conj merged_loop_order_matters fract_cartn_order_matters). Qed.
+(* exact-rational runs of the model for the three orders in which the translators of a row can be applied (the finder
+   replays the same CIFs on the code):  (a) one merged loop with the adp type after the anisotropic components loses the
+   tensor when translators run in column order, not when the type is applied first;  (b) fractional and Cartesian
+   coordinates of the same point interleaved in an oblique cell move the atom unless the Cartesian ones are applied last *)
+Theorem C07_column_order_refuted_outside_conditions : forall so : setter_order,
+  (Permutation merged_type_first merged_type_last /\
+   qlist_eqb (Urow E_cube (order_row so merged_type_first)) (Urow E_cube (order_row so merged_type_last)) =
+   match so with SOColumn => false | _ => true end) /\
+  (qlist_eqb (Xrow E_obl (order_row so both_blocked)) [1 # 10; 1 # 5; 3 # 10]%Q = true /\
+   qlist_eqb (Xrow E_obl (order_row so both_interleaved)) [1 # 10; 1 # 5; 3 # 10]%Q =
+   match so with SOTypeFirstCartnLast => true | _ => false end).
+Proof. exact (fun so => conj (merged_loop_order_matters so) (fract_cartn_order_matters so)). Qed.
 
 (* ---- fractional versus Cartesian coordinates (one row) ------------------------------------------------------------ *)
 Theorem C07_fract_vs_cartn : forall (eps : R) (lat : latdata R) (recbase : gmat R) (Dz : Z) (grid : R -> Z) (dcv : dec -> R),
